@@ -1297,7 +1297,7 @@ def decompile_script(script: bytes, indent: int = 0) -> list[str]:
                 # ops that have tape arguments of form [size 0-255] [val]
                 size = tape.read(1)[0]
                 val = tape.read(size)
-                if int_to_bytes(bytes_to_int(val)) == val:
+                if val and int_to_bytes(bytes_to_int(val)) == val:
                     add_line(f'{op_name} d{bytes_to_int(val)}')
                 else:
                     # non-minimal encoding: keep the exact bytes
